@@ -406,7 +406,7 @@ class Exec:
         m = re.fullmatch(r'QCoreApplication::translate\("(\w*)", (.*)\)', rhs)
         if m:
             tok, j = scan_operand(m.group(2), 0)
-            return Val('QString', P.tr(self.operand(tok, st).t))
+            return Val('QString', P.tr(self.operand(tok, st).t, z3.StringVal(m.group(1))))
         m = re.fullmatch(r'(qDebug|qInfo|qWarning|qCritical)\(\)\.noquote\(\)(.*)', rhs)
         if m:
             rest, args = m.group(2), []
